@@ -249,6 +249,45 @@ func (x xop) emit(h *core.History, now int64) {
 //	quick:    two keys L = 3, one key L = 4
 //	thorough: two keys L = 4, one key L = 5
 func (comp) Exhaustive(prop string, tier string, yield func(*core.History)) {
+	// one LARGE-POPULATION history per kind (beyond the small scope): several hundred keys expire together and one sweep must drop
+	// them all; the survivors are exactly the keys refreshed in between (a threshold inside a sweep would show here and nowhere else)
+	for kind := 0; kind < 3; kind++ {
+		n := 700
+		if tier == "thorough" {
+			n = 2100
+		}
+		alpha := make([][]byte, n)
+		for j := range alpha {
+			alpha[j] = []byte(fmt.Sprintf("k%04d", j))
+		}
+		h := &core.History{}
+		// only a few keys are probed after every operation (the alphabet of the history); Len and Keys see them all
+		watch := [][]byte{alpha[0], alpha[1], alpha[510], alpha[511], alpha[512], alpha[513], alpha[n-1]}
+		configOf(h, kind, 3*halfHour, watch, hugeExpiry)
+		add := func(now int64, k []byte) {
+			t := core.I(now)
+			switch kind {
+			case kindTimeCache:
+				h.Add(opAdd, fmt.Sprintf("Add %q", k), t, core.B(k))
+			case kindPeer:
+				h.Add(opUpsert, fmt.Sprintf("Upsert %q", k), t, core.B(k), core.I(3*halfHour))
+			default:
+				h.Add(opPut, fmt.Sprintf("Put %q", k), t, core.B(k), core.B([]byte("v1")))
+			}
+		}
+		for _, k := range alpha {
+			add(0, k)
+		}
+		// refresh a few of them one hour later: they must survive the sweep at 2 h (span 1 h 30)
+		for _, j := range []int{0, 511, 512, n - 1} {
+			add(hour, alpha[j])
+		}
+		h.Add(opSweep, "Sweep @2h", core.I(2*hour))
+		h.Add(opLen, "Len @2h", core.I(2*hour))
+		h.Add(opSweep, "Sweep @4h", core.I(4*hour))
+		h.Add(opLen, "Len @4h", core.I(4*hour))
+		yield(h)
+	}
 	spans := []int64{1 * halfHour, 3 * halfHour}
 	advances := []int64{0, hour, 2 * hour}
 	l2, l1 := 3, 4
@@ -407,6 +446,7 @@ func (comp) Run(h *core.History, scratch string) *core.Result {
 	lives := map[string]life{}
 	prev := int64(0)
 	for i, op := range h.Ops {
+		res.Scribble() // the key buffers handed to the previous call are reused by their caller
 		a := op.Parsed()
 		now := a[0].I64()
 		if now != prev {
@@ -486,7 +526,7 @@ func (comp) Run(h *core.History, scratch string) *core.Result {
 				res.Hit("empty-key-refused")
 			}
 		case op.Code == opPut && f.put != nil:
-			ev := f.put(key, valOf(a[2]))
+			ev := f.put(res.CallerKey(key), valOf(a[2]))
 			toks = append(toks, core.Lbl(2, core.Bool(ev)))
 			if len(key) > 0 {
 				refreshed(f.defaultSpan, "put")
@@ -494,7 +534,7 @@ func (comp) Run(h *core.History, scratch string) *core.Result {
 				res.Hit("empty-key-refused")
 			}
 		case op.Code == opHasOrAdd && f.hasOrAdd != nil:
-			hs, added := f.hasOrAdd(key, valOf(a[2]))
+			hs, added := f.hasOrAdd(res.CallerKey(key), valOf(a[2]))
 			toks = append(toks, core.Lbl(3, core.Bool(hs)), core.Lbl(4, core.Bool(added)))
 			switch {
 			case len(key) == 0:
